@@ -547,6 +547,88 @@ def check_shared_record(case):
   return r, s
 
 
+
+# ------------------------------------------------------------------ levels changed while the run's loggers are in use
+LOGGER_KEYS = ['record', 'phase', 'plug', 'framework']
+
+
+def check_levels(case):
+  """case = {'levelops': [['level', which, L] | ['disable', L] | ['log', which, v], ...]}: one run whose loggers are kept (as
+  test.logger, a plug's self.logger and the state logger are) while their levels, the level of the "openhtf" logger and
+  logging.disable() change in between.  A message is recorded exactly if it passes the levels in force when it is logged."""
+  r = CaseResult()
+  ohtf.reset_case()
+  from openhtf.util import logs  # pylint: disable=g-import-not-at-top
+  from openhtf.core import test_record  # pylint: disable=g-import-not-at-top
+  base = logging.getLogger('openhtf')
+  base.setLevel(logging.DEBUG)
+  uid = UIDS[1]
+  rec = test_record.TestRecord(dut_id='d', station_id='s')
+  logs.initialize_record_handler(uid, rec, lambda: None)
+  root = logs.get_record_logger_for(uid)
+  objs = {'record': root, 'phase': root.getChild('phase.p'), 'plug': root.getChild('plug.P'), 'framework': logging.getLogger('openhtf.core.vfcheck_levels')}
+  parent = {'record': 'openhtf', 'phase': 'record', 'plug': 'record', 'framework': 'openhtf'}
+  level = {'record': 0, 'phase': 0, 'plug': 0, 'framework': 0, 'openhtf': logging.DEBUG}
+  disabled = 0
+  expected = []
+  changed_after_use = False
+  used = set()
+
+  def effective(k):
+    while level[k] == 0:
+      k = parent[k]
+    return level[k]
+
+  n = 0
+  try:
+    for op in case['levelops']:
+      if op[0] == 'level':
+        k = LOGGER_KEYS[op[1] % len(LOGGER_KEYS)] if op[1] < 4 else 'openhtf'
+        (base if k == 'openhtf' else objs[k]).setLevel(op[2] if not (k == 'openhtf' and op[2] == 0) else logging.DEBUG)
+        level[k] = op[2] if not (k == 'openhtf' and op[2] == 0) else logging.DEBUG
+        if k in used or k == 'openhtf':
+          changed_after_use = True
+      elif op[0] == 'disable':
+        logging.disable(op[1])
+        disabled = op[1]
+        changed_after_use = changed_after_use or bool(used)
+      else:
+        k = LOGGER_KEYS[op[1] % len(LOGGER_KEYS)]
+        n += 1
+        objs[k].log(op[2], 'levels message #%d', n)
+        used.add(k)
+        if op[2] > disabled and op[2] >= effective(k):
+          expected.append(n)
+  finally:
+    logging.disable(logging.NOTSET)
+    base.setLevel(logging.DEBUG)
+    objs['framework'].setLevel(logging.NOTSET)
+    logs.remove_record_handler(uid)
+  got = [int(l.message.rsplit('#', 1)[1]) for l in rec.log_records if l.message.startswith('levels message #')]
+  r.nontrivial = changed_after_use
+  r.classes = ['levels', 'changed-after-use' if changed_after_use else 'static']
+  if got != expected:
+    missing = [x for x in expected if x not in got]
+    extra = [x for x in got if x not in expected]
+    r.bad('C19/levels/%s' % ('message-not-recorded' if missing else 'message-recorded-against-level' if extra else 'order'),
+          'ops %r: recorded %r, expected %r (missing %r, unexpected %r)' % (case['levelops'], got, expected, missing, extra))
+  return r
+
+
+@st.composite
+def level_cases(draw):
+  ops = []
+  for _ in range(draw(st.integers(2, 12))):
+    kind = draw(st.sampled_from(['log', 'log', 'log', 'level', 'level', 'disable']))
+    if kind == 'log':
+      ops.append(['log', draw(st.integers(0, 3)), draw(st.sampled_from([10, 20, 30, 40, 50]))])
+    elif kind == 'level':
+      ops.append(['level', draw(st.integers(0, 4)), draw(st.sampled_from([0, 10, 20, 30, 50]))])
+    else:
+      ops.append(['disable', draw(st.sampled_from([0, 0, 10, 20, 40]))])
+  return {'levelops': ops}
+
+
 # ------------------------------------------------------------------ MAC addresses outside the message proper
 EXC_MAC_CASES = [{'excmac': where, 'mac': i, 'logger': lk} for where in ('exception-text', 'exception-arg', 'stack-info-caller', 'chained-cause')
                  for i in range(len(MACS)) for lk in ('record', 'phase', 'framework')]
@@ -638,6 +720,8 @@ def plan(tier, seed):
     for sh in range(nsh):
       jobs.append({'kind': 'sched', 'name': 'sched.%d.%d.%d' % (n, k, sh), 'slots': n, 'msgs': k, 'bound': bound, 'shard': sh, 'nshards': nsh})
   jobs.append({'kind': 'verbosity', 'name': 'verbosity'})
+  for i in range(2):
+    jobs.append({'kind': 'levels', 'name': 'levels%d' % i, 'hseed': seed * 1000 + 300 + i, 'n': 400 if q else 8000})
   for nthreads, k in ((2, 1), (2, 2), (3, 1)):
     jobs.append({'kind': 'sharedrec', 'name': 'sharedrec.%d.%d' % (nthreads, k), 'threads': nthreads, 'msgs': k, 'bound': 2 if (nthreads, k) == (2, 1) and not q else 1})
   jobs.append({'kind': 'excmac', 'name': 'excmac'})
@@ -653,6 +737,8 @@ def run_job(job, acct):
   if job['kind'] == '_regress':
     from vf import runner  # pylint: disable=g-import-not-at-top
     runner.run_regress(sys.modules[__name__], job, acct)
+  elif job['kind'] == 'levels':
+    hyp.search(acct, level_cases(), check_levels, seed=job['hseed'], max_examples=job['n'], known=known)
   elif job['kind'] == 'sharedrec':
     import itertools  # pylint: disable=g-import-not-at-top
     base = {'sharedrec': job['threads'], 'msgs': job['msgs'], 'plan': {}}
@@ -712,6 +798,8 @@ def run_job(job, acct):
 
 
 def replay(case):
+  if 'levelops' in case:
+    return check_levels(case).violations
   if 'sharedrec' in case:
     return check_shared_record(case)[0].violations
   if 'excmac' in case:
